@@ -339,6 +339,10 @@ def expect_reject(ctx, spec_dir, module, path, mutate, what, cfg=None, libs=(), 
     """B3: a corrupted copy of a trace must be rejected, otherwise the binding is vacuous.
     Only the case that contains the corruption is re-validated (cases start at `marker` events)."""
     import copy
+    if ctx.violations:
+        # the recorded run is already rejected; whether a further corruption of it is rejected too says nothing
+        ctx.extra.setdefault("b3_skipped", []).append(what)
+        return
     orig = read_ndjson(path)
     evs = copy.deepcopy(orig)
     if not mutate(evs):
@@ -354,6 +358,8 @@ def expect_reject(ctx, spec_dir, module, path, mutate, what, cfg=None, libs=(), 
             first = i
             break
     if first is None:
+        if len(orig) == len(evs):
+            raise ToolError("B3 corruption changed nothing (%s)" % what)
         first = min(len(orig), len(evs)) - 1
     # the enclosing case
     lo = first
@@ -477,9 +483,13 @@ class Ctx:
 
     def note_known_from_tlc(self, res):
         """<<"KNOWN", {id, idx}>> lines printed by named deviation actions -> KNOWN-FINDING accounting."""
+        seen = set()
         for tag, val in res.prints:
             if tag != "KNOWN":
                 continue
+            if (val["id"], val.get("idx")) in seen:      # TLC may evaluate an action more than once
+                continue
+            seen.add((val["id"], val.get("idx")))
             ent = [k for k in self.known if k.get("env") == val["id"] and k.get("status") == "open"
                    and k.get("property") == self.prop]
             if not ent:
